@@ -40,6 +40,7 @@ struct ProgOptions {
   bool allowHull = true;
   bool allowCompose = true;
   bool allowProps = true;
+  bool keepNormalsValid = false;  // never overwrite channels recorded as normals (documented as the caller's job)
 };
 
 struct StepInfo {
@@ -109,7 +110,7 @@ inline StepInfo Step(Tape& t, Pool& pool, std::ostream& d, const ProgOptions& op
         OpType o = OpType(t.range(0, 2));
         hdr("Boolean"); d << int(o) << "(v" << ia << ",v" << ib << ")";
         si.inputs = {ia, ib}; si.topologyChanging = true;
-        out(a.m.Boolean(b.m, o), (a.est + b.est) * 1.5 + 16, false, std::max(a.props, b.props));
+        out(a.m.Boolean(b.m, o), (a.est + b.est) * 1.5 + 16, false, std::max(a.props, b.props), a.normals || b.normals);
         return si;
       }
       case 6: {
@@ -179,6 +180,7 @@ inline StepInfo Step(Tape& t, Pool& pool, std::ostream& d, const ProgOptions& op
       }
       case 12: {
         if (!opt.allowProps) break;
+        if (opt.keepNormalsValid && a.normals) break;
         int np = t.range(0, 4);
         hdr("SetProperties"); d << "(v" << ia << "," << np << ")";
         si.inputs = {ia};
@@ -190,6 +192,7 @@ inline StepInfo Step(Tape& t, Pool& pool, std::ostream& d, const ProgOptions& op
       case 13: {
         if (!opt.allowProps) break;
         int idx = t.chance(64) ? t.range(0, 2) : 0;
+        if (opt.keepNormalsValid && a.normals) idx = 0;
         double ang = t.real(0, 180);
         hdr("CalculateNormals"); d << "(v" << ia << "," << idx << "," << num(ang) << ")";
         si.inputs = {ia};
@@ -199,6 +202,7 @@ inline StepInfo Step(Tape& t, Pool& pool, std::ostream& d, const ProgOptions& op
       case 14: {
         if (!opt.allowProps) break;
         int g = t.range(-1, 3), mn = t.range(-1, 3);
+        if (opt.keepNormalsValid && a.normals) { if (g >= 0) g += 3; if (mn >= 0) mn += 3; }
         hdr("CalculateCurvature"); d << "(v" << ia << "," << g << "," << mn << ")";
         si.inputs = {ia};
         out(a.m.CalculateCurvature(g, mn), a.est, a.tangents, std::max({a.props, g + 1, mn + 1}));
@@ -379,8 +383,13 @@ inline StepInfo Step(Tape& t, Pool& pool, std::ostream& d, const ProgOptions& op
           hdr("Revolve"); d << "(" << tmp.str() << "+x" << num(off) << "," << seg << "," << num(deg) << ")";
           out(Manifold::Revolve({p}, seg, deg), 400);
         } else {
-          hdr("Extrude"); d << "(" << tmp.str() << ")";
-          out(Manifold::Extrude({p}, t.real(0.2, 1.5), t.range(0, 4), t.real(-90, 90), vec2(t.real(0, 1.5), t.real(0, 1.5))), 400);
+          // 1-3 contours: the star, optionally a second disjoint star and/or a hole; cone tops included
+          manifold::Polygons ps{p};
+          if (t.chance(96)) { auto q = GenStar(t, 3, 8, 0.3, 1.0, tmp); for (auto& v : q) v.x += 3.0; ps.push_back(q); }
+          if (t.chance(64)) { ps[0] = GenStar(t, 6, 9, 0.9, 1.3, tmp, 0.3); auto hl = GenStar(t, 3, 6, 0.2, 0.6, tmp); std::reverse(hl.begin(), hl.end()); ps.push_back(hl); }
+          vec2 top = t.chance(80) ? vec2(0.0) : vec2(t.real(0, 1.5), t.real(0, 1.5));
+          hdr("Extrude"); d << "(" << ps.size() << " contours: " << tmp.str() << ", top=(" << num(top.x) << "," << num(top.y) << "))";
+          out(Manifold::Extrude(ps, t.real(0.2, 1.5), t.range(0, 4), t.real(-90, 90), top), 600);
         }
         si.topologyChanging = true;
         return si;
